@@ -70,6 +70,16 @@ Qed.
 Theorem L_meta_is_refused : forall k sh ct al, press k sh ct al true = PErr.
 Proof. intros k sh ct al. unfold press, key_press. rewrite orb_true_r. reflexivity. Qed.
 
+(* Alt is refused too, but for an arrow key pressed with Control as well *)
+Theorem L_alt_is_refused : forall k sh ct me, ct && memN k alt_control_keys = false -> press k sh ct true me = PErr.
+Proof.
+  intros k sh ct me H. unfold press, key_press. cbn [andb]. rewrite H. reflexivity.
+Qed.
+
+Theorem L_alt_and_meta_are_refused : forall k sh ct al me,
+  (al = true /\ ct && memN k alt_control_keys = false) \/ me = true -> press k sh ct al me = PErr.
+Proof. intros k sh ct al me [[Ha Hc]|Hm]; subst; [apply L_alt_is_refused; exact Hc|apply L_meta_is_refused]. Qed.
+
 (* every documented cell of the key table (docs/nav-commands.md, Model/KeyMap.v) is what the code's table gives *)
 Definition cell_ok (c : N * bool * bool * str) : bool :=
   match c with (k, ct, sh, name) => match press k sh ct false false with PCommand s => str_eqb s name | _ => false end end.
